@@ -59,6 +59,9 @@ RULES["C02"] = [
   ("XBin as formats::OutputFormat>::load_buffer|S2|index(&*data, RangeFrom{o})", "known", "XBIN palette/font blocks declared but absent: o advanced past the end before &data[o..]"),
   ("formats::xbinary::read_data_compressed|S1|bounds(len(bytes), o)", "known", "compressed XBin run header at the last byte: bytes[o] read right after o += 1 in the Char/Attr/Full arms"),
   ("IceDraw as formats::OutputFormat>::load_buffer|S2|index(&*data, Range{o, (o + 48)})", "known", "IDF file whose palette block (48 bytes after the font) is missing"),
+  ("load_buffer|S4|unwrap(from_bytes('', &*", "reviewed", "BitFont::from_bytes on an embedded font constant (include_bytes! of a PSF/raw font shipped with the crate): the bytes are a valid font, so the Result is Ok"),
+  ("TundraDraw as formats::OutputFormat>::load_buffer|S2|index(&*data, RangeFrom{o})", "known", "Tundra position record (cmd 1) truncated: o += 1 / o += 4 and then &data[o..] with o past the end (e.g. '\\x18TUNDRA24\\x01' + fewer than 8 bytes)"),
+  ("buffers::Buffer::from_bytes|S2|index(&*bytes, RangeTo{len})", "known", "a file that consists of exactly the 128-byte SAUCE record: SauceData::extract computes offset = len - 1 with len = 0 (wraps in release, overflow panic in debug), sauce_header_len becomes data.len() + 1 and `len -= sauce_header_len` wraps: &bytes[..usize::MAX]"),
   ("buffers::Buffer::from_bytes|S4|unwrap(extension(", "known", "file name without an extension: file_name.extension().unwrap()"),
   ("palette_handling::Palette::load_palette|S5|", "known", "PaletteFormat::Ase reaches todo!()"),
   ("tdf_font::TheDrawFont::from_tdf_bytes|", "known", "TDF file truncated inside a font header / glyph table / glyph: " + LOADER),
@@ -76,4 +79,34 @@ RULES["C14"] = [r for r in RULES["C01"] if "sixel" in r[0].lower() or "Sixel" in
 
 RULES["C07"] = [
   ("IcyDraw::to_bytes|trunc|usize as u16|", "reviewed", "the format stores font pages in 16 bits; the property quantifies over font slots 0..=300, which fit (a font page above 65535 would be a format limitation, not a cell-level loss inside the quantifier)"),
+]
+
+MARGINS = ("DECSTBM / DECCARA-style margin setters store `Pn - 1` unvalidated (CSI 0;0 r gives top = bottom = -1, CSI 1;9999 r a bottom below the screen); "
+           "with origin mode (CSI ?6h) every row computed from get_first_editable_line / get_last_editable_line leaves the visible rows")
+ABS00 = "sets the cursor to the absolute buffer position (0,0) while scrollback rows remain (first visible row > 0): the cursor is above the screen"
+RULES["C09"] = [
+  # ---- genuine leaks (the property's own anchors name them; each reproduced by reading the path)
+  ("limit_caret_pos|row-lo|", "known", MARGINS + " -- limit_caret_pos clamps into [first editable, max(last editable - 1, first editable)], which is negative for top = bottom = -1"),
+  ("set_top_and_bottom_margins|row-lo|", "known", MARGINS + " -- caret.pos = upper_left_position() right after storing the margins"),
+  ("change_scrolling_region|row-lo|", "known", MARGINS + " -- caret.pos = upper_left_position() with margins left by an earlier CSI r"),
+  ("check_scrolling_on_caret_down|row-lo|", "known", MARGINS + " -- pos.y > last editable line (= -1) then pos.y -= 1"),
+  ("Caret::ff|store-y|default()", "known", "form feed: " + ABS00 + " (Caret::ff clears the layer but the buffer keeps its height)"),
+  ("caret::Caret::reset|store-y|default()", "known", "RIS / DECSTR: " + ABS00),
+  ("ctrla::Parser as parsers::BufferParser>::print_char|store-y|default()", "known", "Ctrl-A ' (home): " + ABS00),
+  ("restore_cursor_position|row-lo|", "known", "CSI u restores a row saved before the scrollback grew (or under other margins) without limit_caret_pos"),
+  ("restore_cursor_position|col-lo|", "reviewed", "saved_pos.x is a copy of an earlier in-range column (or the initial 0); the width only changes through CSI 8 t, which the property's precondition excludes"),
+  ("restore_cursor_position|store-y|", "known", "CSI u restores a row saved before the scrollback grew (or under other margins) without limit_caret_pos"),
+  ("print_char|store-y|clone(&(*self.saved_cursor_opt", "known", "ESC 8 (DECRC) restores a whole Caret saved before the scrollback grew without limit_caret_pos"),
+  ("{closure#4}|col|after next_tab_stop", "known", "CSI Pn I (CVT / CHT): next_tab_stop returns get_width() past the last stop and the column is stored unclamped (x == width)"),
+  ("avatar::Parser as parsers::BufferParser>::print_char|col|store pos.x = min(79", "known", "Avatar ^V^F (cursor right) clamps to column 79 whatever the terminal width (screens narrower than 80 columns)"),
+  ("avatar::Parser as parsers::BufferParser>::print_char|col|store pos.y = (ch as i32)", "known", "Avatar ^V^H row col (goto) stores both coordinates straight from the stream"),
+  ("avatar::Parser as parsers::BufferParser>::print_char|store-y|(ch as i32)", "known", "Avatar ^V^H row col (goto) stores the row straight from the stream"),
+  ("avatar::Parser as parsers::BufferParser>::print_char|store-y|(*caret.pos.y + 1)", "known", "Avatar ^V^D (cursor down) increments the row without limit_caret_pos / scrolling"),
+  ("avatar::Parser as parsers::BufferParser>::print_char|store-y|max(0, (*caret.pos.y - 1))", "known", "Avatar ^V^C (cursor up) clamps at buffer row 0, not at the first visible row"),
+  # ---- reviewed
+  ("{closure#5}|col|after prev_tab_stop", "reviewed", "CBT: prev_tab_stop returns 0 or a stored tab stop strictly below the current column; tab stops are cursor columns (set_tab_at(caret.x)) or multiples of 8 below the width (reset_tabs), hence within 0..=x-1"),
+  ("print_char|col|after restore_cursor_position", "reviewed", "saved_pos.x is a copy of an earlier in-range column (or the initial 0); the width only changes through CSI 8 t, which the property's precondition excludes"),
+  ("print_char|col|after window_manipulation", "reviewed", "CSI 8;h;w t resizes the text area: excluded by the property's precondition (streams that do not request a resize)"),
+  ("mode7::Parser::caret_down|row-fixed|after index", "reviewed", "Caret::index ends in limit_caret_pos, which clamps to [first visible, first visible + height - 1]; on a fixed page the buffer height equals the terminal height (R-FIXED-GRID: no grower reachable), so first visible = 0"),
+  ("print_char|row-fixed|after home", "reviewed", "home = upper_left_position(): origin mode is only ever set by the ANSI parser, so y = first visible line, which is 0 on a fixed page (R-FIXED-GRID: the buffer never grows)"),
 ]
